@@ -51,12 +51,12 @@ WIDE_RANGE = [10.0, 1e5]
 LAMBDAS = [2.0, 5.0, 12.0]
 ACCEPT = [math.pi / 2, 0.1, 0.01]
 BOUNDS = {
-    "quick": {"n": [1, 2, 5, 20, 50], "kinds": ["linear", "log"], "ranges_A": RANGES, "wavelength_A": LAMBDAS,
+    "quick": {"n": [1, 2, 5, 20, 50, 77], "kinds": ["linear", "log"], "ranges_A": RANGES, "wavelength_A": LAMBDAS,
               "acceptance_rad": ACCEPT,
               "gaussian_s_A": "10, 30, 100, 300, 1000, 3000, 10000, 30000 (x seed factor) and sums of two neighbours",
               "impulse_ladder": "q_acc x (0.3 0.6 0.9 0.99 1.01 1.1 1.5 3), 2pi/lambda x (0.9 0.99 1.01 1.5)",
               "masked_quadrature_xi": "first, middle, last"},
-    "thorough": {"n": [1, 2, 3, 5, 10, 20, 50, 100, 200], "kinds": ["linear", "log"], "ranges_A": RANGES,
+    "thorough": {"n": [1, 2, 3, 5, 10, 20, 50, 77, 100, 150, 199, 200], "kinds": ["linear", "log"], "ranges_A": RANGES,
                  "wavelength_A": LAMBDAS, "acceptance_rad": ACCEPT,
                  "gaussian_s_A": "10, 30, 100, 300, 1000, 3000, 10000, 30000 (x seed factor) and sums of two neighbours",
                  "impulse_ladder": "q_acc x (0.3 0.6 0.9 0.99 1.01 1.1 1.5 3), 2pi/lambda x (0.9 0.99 1.01 1.5)",
